@@ -1,5 +1,6 @@
-CONSTANTS Kind = "camera" MaxOpens = 2 FixOpenLeak = FALSE FixDescribeLeak = FALSE CloseStateFirst = TRUE SetKeepsRunning = TRUE Strict = FALSE
+CONSTANTS Kind = "camera" MaxOpens = 2 FixOpenLeak = FALSE FixDescribeLeak = FALSE CloseStateFirst = TRUE SetKeepsRunning = TRUE SetStopsRejected = TRUE Strict = FALSE
 SPECIFICATION Spec
 VIEW View
 CHECK_DEADLOCK FALSE
 INVARIANTS TypeOK NoErr NoLeak ReportedStateFollowsDriver ClosedMeansClosed RunningIsTrue
+PROPERTIES SetLeavesNoRunner
